@@ -613,7 +613,8 @@ def _async_harness(prop, mac, ds, starter="then"):
 
 FAMILIES = {
     "C03": [fam_barrier_sync, fam_async],
-    "C04": [fam_pos],
+    # + the grids of C17 with a block capture on every action: every element of the result is still its own branch's value
+    "C04": [fam_pos, lambda p, t: [h for h in fam_names(p, t) if h.name.startswith("c17_names_")]],
     "C05": [fam_try],
     "C06": [fam_try],
     "C09": [fam_async],
